@@ -117,7 +117,7 @@ def ber_part(run, model, mods, cases, rng, tier):
         for (c, lab, b, ch, mixed, seg, segtl, usem) in meta:
             if usem:
                 mlines.append("c03dec %s %s" % (c["ts"], b.hex()))
-            if ch is not None:
+            if ch is not None and usem:     # (the extracted list functions are not tail recursive: no huge values)
                 mlines.append("bervar %s %s %s" % (c["ts"], c["vs"], ch))
         rcm, mout, merr = run_lines(model, mlines, timeout=1200)
         log("C03: ber %s: %d lines, C %.1fs, model %.1fs, max k %d" % (m["name"], len(lines), t2 - t1, time.time() - t2, max([0] + [len(x[2]) for x in meta])))
@@ -133,7 +133,7 @@ def ber_part(run, model, mods, cases, rng, tier):
             else:
                 run.count("ber_reference_decoder_skipped(>3000 TLVs)")
             mv = None
-            if ch is not None:
+            if ch is not None and usem:
                 mv = mout[mi]
                 mi += 1
             run.case(l)
